@@ -73,6 +73,46 @@ theorem log_span (cfg : Cfg) (hk : cfg.kind = .slog) (hL : 1 ≤ cfg.limit) (hP 
   simp only [hg] at hi ⊢
   exact hs i hi
 
+/-- Readiness of the wrapped service never touches the budget: an arrival (whether the caller gets
+its call future or is turned away because the wrapped service is not ready — `poll_ready` pending)
+and a change of the wrapped service's readiness leave the limiter, hence its permits, and the
+admissions as they are. In particular no permit is ever held by a request that waits for the
+wrapped service to become ready: permits are only taken by `try_acquire` inside a poll, and the
+inner call is made in that very step (`admit_iff_granted`), on the instance whose readiness the
+caller observed before `call`. -/
+theorem readiness_takes_no_permit (cfg : Cfg) (s : State) (c : Nat) (sc : Step) (ms : Nat) :
+    (stepS cfg s (.arrive c sc)).lim = s.lim ∧ (stepS cfg s (.arrive c sc)).admits = s.admits ∧
+    (stepS cfg s (.busy ms)).lim = s.lim ∧ (stepS cfg s (.busy ms)).admits = s.admits := by
+  refine ⟨?_, ?_, rfl, rfl⟩ <;>
+  · simp only [stepS]
+    split
+    · rfl
+    · split <;> rfl
+
+/-- While the wrapped service is not ready a new caller is turned away before `call`: it gets
+`notready`, is finished, and (by `C15.not_ready_never_inner`) never reaches the wrapped service. -/
+theorem not_ready_turned_away (cfg : Cfg) (s : State) (c : Nat) (sc : Step)
+    (hnew : phaseOf s c = none) (hbusy : s.now < s.busyUntil) :
+    stepS cfg s (.arrive c sc) = notReadyCall s c := by
+  simp [stepS, hnew, hbusy]
+
+/-- Every `inner_call` line the model predicts says `ready=1`: the wrapped service is only ever
+called on an instance that has reported ready (Tower readiness contract). -/
+theorem calls_only_ready (e : Ev) (c k tag : Nat) (r : Bool) (h : wire e = .innerCallX c k tag r) :
+    r = true := by
+  cases e <;> simp [wire] at h <;> exact h.2.2.2
+
+/-- Non-vacuity (wrapped service busy across three windows, limit 1, fixed): the callers of the
+busy windows are turned away without a permit, so when the wrapped service is ready again only one
+call reaches it — nothing was banked. -/
+example :
+    let cfg : Cfg := { kind := .fixed, limit := 1, period := 100, timeout := 0 }
+    let s := run cfg [.arrive 1 ⟨0, .ok⟩, .poll 1 false false, .busy 250, .adv 100, .arrive 2 ⟨0, .ok⟩,
+      .adv 100, .arrive 3 ⟨0, .ok⟩, .adv 50, .arrive 4 ⟨0, .ok⟩, .arrive 5 ⟨0, .ok⟩,
+      .poll 4 false false, .poll 5 false false]
+    s.admits = [(1, 0), (4, 250)] ∧ phaseOf s 2 = some (.done false) ∧ phaseOf s 3 = some (.done false) ∧
+    Ev.result 2 .notReady ∈ s.log ∧ Ev.result 5 .rateLimited ∈ s.log := by decide
+
 /-- Non-vacuity (fixed window, the scenario of the property text): limit 2, period 100,
 timeout 250 > period, six callers at t = 0. Two are admitted at once, four sleep; at t = 100
 two of the sleepers are admitted and two are rejected: two windows, two admissions each. -/
